@@ -18,12 +18,12 @@ func init() {
 	Registry["C18"] = checkC18
 	Descriptions["C07"] = "C07-recover (every goroutine gldap starts that can run a handler or the decode slice registers, before any such call and exactly under !disablePanicRecovery, a deferred function that calls recover() directly), " +
 		"C07-accept (a failing Accept that is not the shutting-down case has a path back to the accept loop), C07-noexit (no os.Exit / log.Fatal / runtime.Goexit / undischarged explicit panic reachable from connection or request goroutines), " +
-		"C07-contained (connection/request goroutines never cancel the server context or close the listener), C07-nolock-io (no Server.mu / Mux.mu can be held at a call that reaches blocking socket I/O), C07-lockbalance (every Unlock/RUnlock, explicit or deferred, finds its mutex locked on every path: unlocking an unlocked mutex is a fatal error no recover() contains). Decides fencing and survival of the accept loop; does not decide that bystanders receive correct answers."
+		"C07-contained (connection/request goroutines never cancel the server context or close the listener), C07-nolock-io (no Server.mu / Mux.mu can be held at a call that reaches blocking socket I/O), C07-isolated (a connection's reader/writer pair is built in initConn from its own socket and never reset or replaced elsewhere: rules C13-pair / C05-owner), C07-accept-nonblocking (Run and its synchronous helpers perform no handshake / read / write on an accepted connection), C07-lockbalance (every Unlock/RUnlock, explicit or deferred, finds its mutex locked on every path: unlocking an unlocked mutex is a fatal error no recover() contains). Decides fencing and survival of the accept loop; does not decide that bystanders receive correct answers."
 	Descriptions["C11"] = "Necessary structural condition for bounded Stop: C11-sites (blocking socket I/O sites on connection/request goroutines enumerated), " +
-		"C11-lockrelease (every Lock/RLock in gldap is released on every path to the function's exit), C11-accounting (every connWg.Add is matched by a Done on every path, rules C12-done-last / C12-add-vs-wait), C11-waker-lifetime (a watcher goroutine that can be told to stop is told so only after (*conn).close has waited for the handlers), C11-waker (some code that runs asynchronously to those goroutines closes or deadlines every connection's socket once shutdownCtx is cancelled, and it is started for every accepted connection before its first read), C11-waker-first (no call that reaches ber.ReadPacket, a bufio.Writer write/flush, a net.Conn/tls.Conn read/write or a TLS handshake lies on a path of the connection goroutine before the watcher start), " +
+		"C11-lockrelease (every Lock/RLock in gldap is released on every path to the function's exit), C11-accounting (every connWg.Add is matched by a Done on every path, rules C12-done-last / C12-add-vs-wait), C11-waker-lifetime (a watcher goroutine that can be told to stop is told so only after (*conn).close has waited for the handlers), C11-waker (some code that runs asynchronously to those goroutines closes or deadlines every connection's socket once shutdownCtx is cancelled, and it is started for every accepted connection before its first read), C11-waker-first (no call that reaches ber.ReadPacket, a bufio.Writer write/flush, a net.Conn/tls.Conn read/write or a TLS handshake lies on a path of the connection goroutine before the watcher start), C11-deadline-kept (every holder of a connection socket is followed; a Set*Deadline that may clear the deadline runs only on the shutdown path, in connection setup, synchronously in the read loop or as the closing half of an arm/clear pair), C11-noblock (the connection goroutine contains no bare channel operation, select without a shutdown case or foreign Wait), " +
 		"C11-stop-order (listener.Close and cancel precede connWg.Wait), C11-run-nil (shutdown exits of Run return nil), C11-nolock (connection goroutines never take Server.mu, which Stop holds across Wait). The time bound itself is not decided."
 	Descriptions["C17"] = "C17-guard (every store of true to Server.listenerReady is control-dependent on net.Listen's error being nil), C17-who (the flag is written only in Run (true) / Stop (false), under Server.mu), " +
-		"C17-errors (no error return of Run before or at the listen failure follows a store of true), C17-serves (no error return of Run between making Ready true and the first Accept), C17-accept-retry (a temporary Accept error never ends Run), C17-accept-unblocked (connection goroutines never take Server.mu, which the accept loop needs for every Accept: rule C11-nolock), C17-getter (Ready returns the field under the lock). Kernel-level accept behaviour is not decided."
+		"C17-errors (no error return of Run before or at the listen failure follows a store of true), C17-serves (no error return of Run between making Ready true and the first Accept), C17-accept-retry (a temporary Accept error never ends Run), C17-accept-unblocked (connection goroutines never take Server.mu, which the accept loop needs for every Accept: rule C11-nolock), C17-accept-nonblocking (the accept loop, helpers included, performs no handshake / read / write on an accepted connection: rule C07-accept-nonblocking), C17-getter (Ready returns the field under the lock). Kernel-level accept behaviour is not decided."
 	Descriptions["C18"] = "C18-wrap (when opts.withTLSConfig != nil the listener Accept is called on is tls.NewListener(plain, thatConfig), installed before the accept loop and never replaced), " +
 		"C18-noplain (newConn receives the Accept result itself; every stream handed to initConn traces back to Accept's result, conn.netConn or tls.Server of those; no code reads the underlying socket; read errors end the connection), " +
 		"C18-directory (testdirectory.GetTLSConfig with WithMTLS sets ClientAuth = RequireAndVerifyClientCert and ClientCAs = the pool of the CA created in the same call, and never weakens verification; Start passes that config to Run unless WithNoTLS). crypto/tls itself is trusted."
@@ -255,6 +255,22 @@ func checkC17(c *Ctx) {
 			}
 		}
 		R.Floor("C17-accept-unblocked", 1)
+		// ... and the accept loop itself waits for no single client between two Accepts (rule C07-accept-nonblocking):
+		// a peer that connects and stays silent in a handshake run by the accept loop keeps everyone else from being
+		// accepted although Ready() is true
+		tmp7 := &Ctx{P: c.P, R: report.New("tmp"), Tier: c.Tier, Sub: true}
+		checkC07(tmp7)
+		for _, o := range tmp7.R.Obls {
+			if o.Rule == "C07-accept-nonblocking" {
+				switch o.Status {
+				case report.Discharged:
+					R.OK("C17-accept-nonblocking", o.Construct, o.Pos, o.Detail)
+				default:
+					R.Fail("C17-accept-nonblocking", o.Construct, o.Pos, o.Detail+" (Ready() is true all the while)")
+				}
+			}
+		}
+		R.Floor("C17-accept-nonblocking", 1)
 	}
 	// C17-getter
 	ls := an.LockSets(ready, nil)
@@ -809,6 +825,7 @@ func (c *Ctx) checkDirectoryTLS() {
 		return len(names) >= 1 && names[len(names)-1] == "withMTLS"
 	}
 	var clientAuth, clientCAs *ssa.Store
+	var auths []*ssa.Store
 	an.Instrs(getTLS, func(in ssa.Instruction) {
 		st, ok := in.(*ssa.Store)
 		if !ok {
@@ -820,10 +837,7 @@ func (c *Ctx) checkDirectoryTLS() {
 		}
 		switch an.FieldAddrName(fa) {
 		case "ClientAuth":
-			if clientAuth != nil {
-				R.Fail("C18-directory", "GetTLSConfig: ClientAuth set once", c.pos(st), "ClientAuth assigned more than once")
-			}
-			clientAuth = st
+			auths = append(auths, st)
 		case "ClientCAs":
 			clientCAs = st
 		case "Certificates", "MinVersion", "MaxVersion", "NextProtos", "ServerName", "CipherSuites":
@@ -833,6 +847,31 @@ func (c *Ctx) checkDirectoryTLS() {
 			R.Unknown("C18-directory", "GetTLSConfig: server config sets "+an.FieldAddrName(fa), c.pos(st), "unexpected field of the server tls.Config is set; cannot show it does not weaken client verification")
 		}
 	})
+	// several assignments of ClientAuth (a default in the literal, the mTLS value later): the one that counts is the
+	// one no other assignment can follow
+	{
+		var last []*ssa.Store
+		for _, st := range auths {
+			isOther := func(in ssa.Instruction) bool {
+				for _, o := range auths {
+					if o != st && ssa.Instruction(o) == in {
+						return true
+					}
+				}
+				return false
+			}
+			if an.Search(an.After(st), isOther, nil) == nil {
+				last = append(last, st)
+			}
+		}
+		switch {
+		case len(last) == 1:
+			clientAuth = last[0]
+		case len(auths) > 0:
+			R.Fail("C18-directory", "GetTLSConfig: ClientAuth set once", c.pos(auths[len(auths)-1]), "ClientAuth is assigned in several places and no assignment is the last one on every path")
+			clientAuth = auths[len(auths)-1]
+		}
+	}
 	// server config must not be passed to a function that could modify it
 	for _, r := range *srvAlloc.Referrers() {
 		if ci, ok := r.(ssa.CallInstruction); ok {
@@ -1325,17 +1364,18 @@ func checkC07(c *Ctx) {
 	// ---- C07-accept-nonblocking: the accept goroutine itself never performs per-connection I/O
 	// (a single client stalling in a handshake / read / write would stop the server from accepting).
 	nAcc := 0
+	inAccept := syncReach(m.run) // Run and what it calls synchronously (helpers, deferred closures); not the goroutines it starts
 	for _, u := range c.socketUses() {
-		if u.Fn != m.run || len(u.Kind) < 8 || u.Kind[:7] != "method:" {
+		if !(u.Fn == m.run || inAccept[u.Fn] && an.InModule(u.Fn)) || len(u.Kind) < 8 || u.Kind[:7] != "method:" {
 			continue
 		}
 		meth := u.Kind[7:]
 		nAcc++
 		switch meth {
 		case "Handshake", "HandshakeContext", "Read", "Write", "VerifyHostname":
-			R.Fail("C07-accept-nonblocking", "(*Server).Run: "+meth+" on the accepted connection", c.pos(u.Instr), "the accept loop itself performs "+meth+" on the accepted connection: one client that stalls there keeps the server from accepting anyone else")
+			R.Fail("C07-accept-nonblocking", fname(u.Fn)+": "+meth+" on the accepted connection", c.pos(u.Instr), "the accept loop itself (here through "+fname(u.Fn)+") performs "+meth+" on the accepted connection: one client that stalls there keeps the server from accepting anyone else")
 		default:
-			R.OK("C07-accept-nonblocking", "(*Server).Run: "+meth+" on the accepted connection", c.pos(u.Instr), meth+" does not wait for the peer")
+			R.OK("C07-accept-nonblocking", fname(u.Fn)+": "+meth+" on the accepted connection", c.pos(u.Instr), meth+" does not wait for the peer")
 		}
 	}
 	for _, ci := range an.Calls(m.run) {
@@ -1407,6 +1447,35 @@ func checkC07(c *Ctx) {
 		}
 	}
 	R.Trivial("C07-contained", "connection/request slice has no server-level effect", c.P.Pos(m.connFn.Pos()), "only connWg.Done, logging and onCloseHandler touch the Server")
+
+	// ---- C07-isolated: "affects only that connection ... every other connection keeps receiving correct responses": the
+	// buffered reader/writer pair of a connection belongs to that connection alone for as long as anything can still
+	// use it - it is built in initConn from the connection's own socket and never re-pointed, reset or replaced
+	// anywhere else (rules C13-pair and C05-owner). A pair taken from or returned to a pool while a handler of the old
+	// connection can still write would deliver that handler's response to another connection.
+	if !c.Sub {
+		n := 0
+		for _, imp := range []struct {
+			run   func(*Ctx)
+			rules map[string]bool
+		}{{checkC13, map[string]bool{"C13-pair": true}}, {checkC05, map[string]bool{"C05-owner": true}}} {
+			tmp := &Ctx{P: c.P, R: report.New("tmp"), Tier: c.Tier, Sub: true}
+			imp.run(tmp)
+			for _, o := range tmp.R.Obls {
+				if !imp.rules[o.Rule] {
+					continue
+				}
+				n++
+				switch o.Status {
+				case report.Discharged:
+					R.OK("C07-isolated", o.Construct, o.Pos, o.Detail)
+				default:
+					R.Fail("C07-isolated", o.Construct, o.Pos, o.Detail+" - a connection's stream would no longer be its own: a late or failing write on one connection reaches another")
+				}
+			}
+		}
+		R.Floor("C07-isolated", 3)
+	}
 
 	// ---- C07-nolock-io: no lock that all connections share (Server.mu, Mux.mu) can be held while gldap does blocking
 	// socket I/O on one connection: a client that stops reading would otherwise stall, through that lock, the requests
@@ -1752,6 +1821,152 @@ func checkC11(c *Ctx) {
 		}
 	}
 	R.Floor("C11-sites", 2)
+
+	// ---- C11-deadline-kept: the deadlines with which the shutdown watcher interrupts blocked reads and writes stay in
+	// force. (a) every holder of a connection's socket is one the analysis follows - a copy kept in some other field or
+	// handed to unknown code could clear or re-arm them; (b) a Set*Deadline call that may clear the deadline (zero time,
+	// or a time the analysis cannot show to be non-zero) runs only where it cannot undo the watcher's: in the watcher
+	// itself, during connection setup before the watcher starts, or synchronously in the read loop, which tests the
+	// shutdown at every iteration. Anywhere else (a handler's Write path, a helper goroutine) it can erase the
+	// deadline a blocked handler is waiting on, and the teardown's Wait - and so Stop - never returns.
+	{
+		tmp := &Ctx{P: c.P, R: report.New("tmp"), Tier: c.Tier, Sub: true}
+		tmp.checkSocketDiscipline("x")
+		for _, o := range tmp.R.Obls {
+			switch o.Status {
+			case report.Discharged:
+				R.OK("C11-deadline-kept", o.Construct, o.Pos, o.Detail)
+			default:
+				if strings.Contains(o.Construct, "method:Read") || strings.Contains(o.Construct, "method:Write") {
+					R.OK("C11-deadline-kept", o.Construct, o.Pos, "direct I/O on the socket does not touch its deadlines (whether it may bypass the buffered pair is C13/C18's concern)")
+					continue
+				}
+				R.Fail("C11-deadline-kept", o.Construct, o.Pos, "a holder or user of the connection's socket that the analysis cannot follow: it could clear or re-arm the deadlines with which the shutdown watcher interrupts blocked handlers ("+o.Detail+")")
+			}
+		}
+		nonZeroTime := func(v ssa.Value) bool {
+			// time.Now().Add(d) / time.Now(): never the zero time
+			call, ok := an.Strip(v).(*ssa.Call)
+			if !ok {
+				return false
+			}
+			g := call.Common().StaticCallee()
+			if g == nil || an.FuncPkgPath(g) != "time" {
+				return false
+			}
+			if g.Name() == "Now" {
+				return true
+			}
+			if g.Name() == "Add" && len(call.Common().Args) == 2 {
+				if in, ok := an.Strip(call.Common().Args[0]).(*ssa.Call); ok {
+					if h := in.Common().StaticCallee(); h != nil && an.FuncPkgPath(h) == "time" && h.Name() == "Now" {
+						return true
+					}
+				}
+			}
+			return false
+		}
+		n := 0
+		for _, u := range c.socketUses() {
+			if !strings.HasPrefix(u.Kind, "method:Set") || !strings.HasSuffix(u.Kind, "Deadline") {
+				continue
+			}
+			ci, isCall := u.Instr.(ssa.CallInstruction)
+			if !isCall || len(ci.Common().Args) == 0 {
+				continue
+			}
+			n++
+			f := u.Fn
+			key := fname(f) + ": " + u.Kind[7:] + " cannot undo the shutdown deadline"
+			arg := ci.Common().Args[len(ci.Common().Args)-1]
+			inReadLoop := f == m.serve
+			if !inReadLoop {
+				inReadLoop, _ = syncOnlyFrom(f, m.serve, shipped, 0)
+			}
+			switch {
+			case nonZeroTime(arg):
+				R.OK("C11-deadline-kept", key, c.pos(ci), "arms a deadline at a finite time from now: blocked I/O still ends")
+			case f == m.stop || c.dominatedByShutdownRecv(ci):
+				R.OK("C11-deadline-kept", key, c.pos(ci), "runs on the shutdown path itself")
+			case c.isConnSetup(ci, m):
+				R.OK("C11-deadline-kept", key, c.pos(ci), "connection setup, before the connection's first read")
+			case inReadLoop:
+				R.OK("C11-deadline-kept", key, c.pos(ci), "runs synchronously in the read loop, which tests the shutdown before every read")
+			case func() bool {
+				// the closing half of an arm ... clear pair in one function (a bounded handshake inside StartTLS): the clear
+				// is dominated by a Set*Deadline of the same function (or of the function whose deferred closure this is)
+				// that arms a finite deadline
+				for _, o := range c.socketUses() {
+					oc, isC := o.Instr.(ssa.CallInstruction)
+					if !isC || oc == ci || !strings.HasPrefix(o.Kind, "method:Set") || !strings.HasSuffix(o.Kind, "Deadline") || len(oc.Common().Args) == 0 {
+						continue
+					}
+					if !nonZeroTime(oc.Common().Args[len(oc.Common().Args)-1]) {
+						continue
+					}
+					if o.Fn == f && an.InstrDominates(oc, ci) || f.Parent() == o.Fn {
+						return true
+					}
+				}
+				return false
+			}():
+				R.OK("C11-deadline-kept", key, c.pos(ci), "the clear that ends an arm ... clear pair of one function (a bounded step such as the StartTLS handshake); the window in which it could erase a deadline set by the shutdown watcher in between is accepted")
+			default:
+				R.Fail("C11-deadline-kept", key, c.pos(ci), "this call can clear the socket's deadline (its time argument is not shown to be non-zero) and runs outside the shutdown path, the connection setup and the read loop: it can erase the deadline with which the shutdown watcher interrupts a handler blocked on this connection; the handler then blocks for ever and Stop never returns")
+			}
+		}
+		R.Count("C11-deadline-kept/deadline-sites", n)
+		R.Floor("C11-deadline-kept", 2)
+	}
+
+	// ---- C11-noblock: the connection goroutine (its read loop, its teardown, and what they call synchronously, handlers
+	// aside) blocks only in operations the shutdown ends: socket I/O (rules C11-waker*), the teardown's wait for the
+	// handlers, or a select that also listens for the shutdown. A bare channel send / receive, a select without such a
+	// case, or a wait on some other synchronisation object is woken by nobody when the server stops: the goroutine
+	// never reaches connWg.Done and Stop waits for ever.
+	{
+		slice := syncReach(m.connFn)
+		for f := range syncReach(m.muxServe) {
+			delete(slice, f) // handlers are user code
+		}
+		nb := 0
+		for f := range slice {
+			if !an.InModule(f) || c.P.IsTestFile(f.Pos()) {
+				continue
+			}
+			an.Instrs(f, func(in ssa.Instruction) {
+				bad := ""
+				switch x := in.(type) {
+				case *ssa.Send:
+					bad = "channel send"
+				case *ssa.UnOp:
+					if x.Op == token.ARROW && !c.isShutdownDone(x.X) && c.derivedShutdownDone(x.X) == nil {
+						bad = "channel receive"
+					}
+				case *ssa.Select:
+					if x.Blocking {
+						bad = "select without a shutdown case"
+						for _, stt := range x.States {
+							if stt.Dir == types.RecvOnly && (c.isShutdownDone(stt.Chan) || c.derivedShutdownDone(stt.Chan) != nil) {
+								bad = ""
+							}
+						}
+					}
+				case ssa.CallInstruction:
+					cc := x.Common()
+					if cf := cc.StaticCallee(); cf != nil && an.FuncPkgPath(cf) == "sync" && cf.Name() == "Wait" && !isWG(cc, "Wait", G, "conn", "requestsWg") {
+						bad = "sync." + cf.Signature.Recv().Type().String() + ".Wait"
+					}
+				}
+				if bad == "" {
+					return
+				}
+				nb++
+				R.Fail("C11-noblock", fname(f)+": "+bad, c.pos(in), "the connection goroutine can block in this "+bad+", which nothing wakes when the server stops (the shutdown watcher only sets socket deadlines): the connection never reaches connWg.Done and Stop never returns")
+			})
+		}
+		R.Trivial("C11-noblock", "connection goroutine: no unwakeable blocking operation", c.P.Pos(m.connFn.Pos()), sprintf("%d functions that run synchronously on the connection goroutine scanned for channel operations, selects and waits", len(slice)))
+	}
 
 	// ---- C11-waker
 	type waker struct {
